@@ -177,6 +177,9 @@ impl MarkdownWriter {
                     if t == document::LinkType::WikiLink {
                         // written as is: the event writer knows no wiki links and would make it "[](url)"
                         events.push(Event::InlineHtml(format!("[[{}]]", url).into()));
+                    } else if t == document::LinkType::WikiLinkPiped {
+                        // inside a cell the pipe of a piped wiki link is escaped
+                        events.push(Event::InlineHtml(format!("[[{}\\|{}]]", url, text).into()));
                     } else if !is_ref_url(&url) && text == url {
                         events.push(Event::Start(Tag::Link {
                             title: title.into(),
